@@ -33,7 +33,8 @@ PROPERTY = 'C07'
 BOUND = (
     'real shelve store + real md5sum/sha1sum; histories of <= 5 operations over {update of 2 values with contents from a pool of 4 '
     '(repeating; one > 64 KiB), remove, purge tool, close/reopen} on 2 targets x 2 algorithms x runs {1,2}, plus 6 fixed histories over three pairs of '
-    'large values (5 KB, 70 KB, 1 MiB pickles) that differ in their last byte only (names are the digest of ALL bytes); crash injection before '
+    'large values (5 KB, 70 KB, 1 MiB pickles) that differ in their last byte only (names are the digest of ALL bytes) and 12 fixed histories that remove one of two '
+    'catalogue entries sharing one stored content; crash injection before '
     'every intercepted call k (tempfile.mkstemp, os.close, open, pickle.dump (also torn), os.chmod, subprocess.check_output x2, '
     'os.path.exists, os.unlink, shutil.move inside dawgie.db.util; Shelf.__setitem__/__delitem__ = every table write) of one '
     'update, all k, two crash modes (exception / fork+os._exit), for 6 fixed + 28 seeded random scenarios (thorough tier; the quick '
@@ -396,6 +397,17 @@ def enumerated_histories():
         for p2 in places:
             for c2 in conts:
                 yield {'kind': 'history', 'ops': [['update', 0, 0, 1, c1], ['update', *p2, c2], ['purge']]}
+
+
+def directed_histories():
+    '''run in both tiers, before everything else (never dropped by the time budget)'''
+    places = [(0, 0, 1), (0, 0, 2), (0, 1, 1), (1, 0, 1)]
+    # the same content under several catalogue entries (other target, other run, other algorithm), then one of the
+    # entries is removed: the others still refer to the single stored copy
+    for p2 in places[1:]:
+        for victim in (['remove', 1, 0, 0, 0], ['remove', p2[2], p2[1], p2[0], 0]):
+            yield {'kind': 'history', 'ops': [['update', 0, 0, 1, [0, 1]], ['update', *p2, [0, 1]], victim, ['reopen']]}
+            yield {'kind': 'history', 'ops': [['update', 0, 0, 1, [0, 0]], ['update', *p2, [1, 0]], victim, ['purge']]}
     for a in (4, 6, 8):      # large values sharing all but their last bytes
         yield {'kind': 'history', 'ops': [['update', 0, 0, 1, [a, a + 1]], ['update', 0, 1, 1, [a + 1, a]], ['purge']]}
         yield {'kind': 'history', 'ops': [['update', 0, 0, 1, [a, None]], ['update', 0, 0, 2, [a + 1, None]], ['reopen'], ['update', 1, 1, 1, [a, a]]]}
@@ -591,20 +603,21 @@ def run(tier: str, seed: int) -> dict:
     t0 = time.time()
     rng = random.Random(seed)
     enum = list(enumerated_histories())
+    directed = list(directed_histories())
     if tier == 'quick':
-        hist = enum[::4] + [random_history(rng) for _ in range(12)]
+        hist = directed + enum[::4] + [random_history(rng) for _ in range(12)]
         # the overwrite scenario at every k in both modes; two more at every 2nd k
         # the repeated-content scenario (content already stored and still referenced elsewhere) at every k as exception;
         # it is cheap and goes first so that an overloaded machine (deadline) never drops it
         scen = [(SCENARIOS[4], ['raise'], 0, 1), (SCENARIOS[1], ['raise', 'exit'], 0, 1), (SCENARIOS[0], ['raise'], 4, 2), (SCENARIOS[2], ['raise'], 0, 2)]
         procs = 1
     else:
-        hist = enum + [random_history(rng) for _ in range(900)]
+        hist = directed + enum + [random_history(rng) for _ in range(900)]
         scen = [(s, ['raise', 'exit'], 2, 1) for s in SCENARIOS + [random_scenario(rng) for _ in range(28)]]
         procs = min(16, os.cpu_count() or 1)
     deadline = t0 + sc.BUDGET_S[tier]
     # single process: the histories may use at most a third of the budget
-    h_deadline = deadline if procs > 1 else t0 + sc.BUDGET_S[tier] / 3
+    h_deadline = deadline if procs > 1 else t0 + sc.BUDGET_S[tier] / 2
     scen = [s + (deadline,) for s in scen]
     if procs > 1:
         import multiprocessing
@@ -640,7 +653,7 @@ def run(tier: str, seed: int) -> dict:
         'cases': execs,
         'distinct': len(sigs),
         'rule': (
-            f'{len(hist)} histories ({"every 4th of the" if tier == "quick" else "all"} 64 enumerated [update, update at one of 4 places, purge] '
+            f'{len(hist)} histories ({len(directed)} directed ones - shared content then remove, large values differing in their last byte -, {"every 4th of the" if tier == "quick" else "all"} 64 enumerated [update, update at one of 4 places, purge] '
             'histories over contents {0,1}^2, the rest seeded random with 2..5 operations) audited after every operation; '
             f'{len(scen)} crash scenarios x every intercepted call of the victim update (quick tier: every call in both modes for the '
             'overwrite scenario, every call in exception mode for the repeated-content scenario, every 2nd call + every call of '
